@@ -150,8 +150,9 @@ pub fn check_answer(
                     out.push(Complaint { sig: "record-not-in-current-packet", detail: format!("{sub_s}/{}: {} (current packet: {})", wire::type_name(t), r.data.canon(), current.map(|p| p.label()).unwrap_or("none".into())) });
                 }
             }
-        } else if owner == wire::lower(origin) {
-            // the server's own static apex records (SOA/NS/A of the origin)
+        } else if owner.is_empty() || owner == wire::labels_of(crate::rig::ORIGIN) {
+            // the server's own static apex records (SOA/NS/A of a configured origin; a SOA
+            // question is answered with the SOA of the first origin)
         } else if owner.iter().any(|l| other_zones.iter().any(|z| l.eq_ignore_ascii_case(z.as_bytes()))) {
             out.push(Complaint { sig: "other-zone-owner-in-answer", detail: format!("owner {}", wire::labels_to_string(&owner)) });
         } else {
